@@ -235,31 +235,35 @@ func (dt *DateTime) Capture(values []string) error {
 // goroutine stack, and a stack overflow is fatal for the whole process
 const cMaxNestingDepth = 1000
 
-// checkNesting rejects a text whose parentheses (outside string literals) are nested deeper than cMaxNestingDepth
+// checkNesting rejects a text whose parentheses are nested deeper than cMaxNestingDepth. It runs the parser's own lexer over
+// the text and counts on tokens, so that string literals and {…} tags are seen exactly as the parser will see them. A lexer
+// error ends the scan: the parser meets the same error at the same token, after at most the depth counted so far.
 func checkNesting(s string) error {
+	lex, err := lqlLexer.Lex(strings.NewReader(s))
+	if err != nil {
+		return nil
+	}
+	operator := lqlLexer.Symbols()["Operator"]
 	depth := 0
-	for i := 0; i < len(s); i++ {
-		switch s[i] {
-		case '"':
-			for i++; i < len(s) && s[i] != '"'; i++ {
-				if s[i] == '\\' {
-					i++
-				}
-			}
-		case '\'':
-			for i++; i < len(s) && s[i] != '\''; i++ {
-			}
-		case '(':
+	for {
+		tok, err := lex.Next()
+		if err != nil || tok.EOF() {
+			return nil
+		}
+		if tok.Type != operator {
+			continue
+		}
+		switch tok.Value {
+		case "(":
 			if depth++; depth > cMaxNestingDepth {
 				return fmt.Errorf("parentheses are nested deeper than %d levels", cMaxNestingDepth)
 			}
-		case ')':
+		case ")":
 			if depth > 0 {
 				depth--
 			}
 		}
 	}
-	return nil
 }
 
 func ParseLql(lql string) (*Lql, error) {
